@@ -410,7 +410,47 @@ def oracle(case):
                                 'dict of pos -> set of str', repr(wn.morphy.morphy(q, pos))[:200]))
             else:
                 _check_uninit(q, pos, rm, out, mode='module-morphy')
+    if not out:
+        _check_twin(case, kw, out)
     return out
+
+
+def _check_twin(case, kw, out):
+    """Two versions of the lexicon (all ids shared) behind one Wordnet: every query finds the
+    union of what it finds in each version alone, each entity once."""
+    import copy
+    import wn
+    from wn.morphy import Morphy
+    lex = case['resource']['lexicons'][0]
+    twin = copy.deepcopy(lex)
+    twin['version'] = lex['version'] + '.twin'
+    wn.add_lexical_resource({'lmf_version': '1.1', 'lexicons': [twin]}, progress_handler=None)
+    specs = [f"{lex['id']}:{lex['version']}", f"{twin['id']}:{twin['version']}"]
+
+    def keys(w, kind, q, pos):
+        return [(x.lexicon().specifier(), x.id) for x in getattr(w, kind)(q, pos=pos)]
+
+    for init in (False, True):
+        ws = []
+        for sel in (specs[0], specs[1], ' '.join(specs)):
+            w = wn.Wordnet(sel, **kw)
+            w.lemmatizer = Morphy(w) if init else Morphy()
+            ws.append(w)
+        for i, q in enumerate(case['queries'][:12]):
+            for pos in (None, POSS[1 + i % (len(POSS) - 1)]):
+                for kind in ('words', 'senses', 'synsets'):
+                    a, b, both = (keys(w, kind, q, pos) for w in ws)
+                    if len(both) != len(set(both)):
+                        out.append(Disc(f'wn-{kind}-duplicates',
+                                        _where(f'two-versions init={init}', q, pos),
+                                        'no duplicates', [list(k) for k in both]))
+                    elif set(both) != set(a) | set(b):
+                        out.append(Disc(f'wn-{kind}-not-union-of-lexicons',
+                                        _where(f'two-versions init={init}', q, pos),
+                                        sorted(map(list, set(a) | set(b))),
+                                        sorted(map(list, both))))
+                    if len(out) >= MAX_DISCS:
+                        return
 
 
 def _sample(case):
